@@ -79,6 +79,10 @@ pub enum Op {
     Freq { hist: Vec<H> },
     Sum { axis: usize },
     ToArray { axis: usize, pos: usize },
+    /// the array of this shape as obtained from `Array::read_npy` (the other way to get an array),
+    /// from a header that declares C order or Fortran order: if the reader accepts it, indexing,
+    /// flat order and views of the result must agree with one another
+    FromNpy { fortran: bool },
 }
 
 #[derive(Clone, Debug, Serialize, Deserialize)]
@@ -386,6 +390,8 @@ impl Prop for C19 {
                 ops.push(Op::Sum { axis });
             }
         }
+        ops.push(Op::FromNpy { fortran: false });
+        ops.push(Op::FromNpy { fortran: true });
         ops.push(Op::Indices {
             hist: gen_hist(&mut rng, n, false),
         });
@@ -634,6 +640,70 @@ impl Prop for C19 {
                             format!("C19 sum(axis) panic ({}) {}", rank_class(dims), panic_key(&p)),
                             format!("shape {shape:?} axis {axis}: {p}"),
                         ),
+                    }
+                }
+                Op::FromNpy { fortran } => {
+                    out.evals += 1;
+                    let inner = shape.iter().map(|x| x.to_string()).collect::<Vec<_>>().join(", ");
+                    let mut dict = format!("{{'descr': '<f8', 'fortran_order': {}, 'shape': ({inner},), }}", if *fortran { "True" } else { "False" });
+                    while (10 + dict.len() + 1) % 64 != 0 {
+                        dict.push(' ');
+                    }
+                    dict.push('\n');
+                    let mut img = b"\x93NUMPY\x01\x00".to_vec();
+                    img.extend_from_slice(&(dict.len() as u16).to_le_bytes());
+                    img.extend_from_slice(dict.as_bytes());
+                    for i in 0..n {
+                        img.extend_from_slice(&(i as f64).to_le_bytes());
+                    }
+                    let read = guarded(|| Array::<f64>::read_npy(&mut &img[..]));
+                    let arr = match read {
+                        Ok(Ok(a)) => a,
+                        Ok(Err(_)) => {
+                            out.count(if *fortran { "from_npy.fortran_rejected" } else { "from_npy.c_order_rejected" }, 1);
+                            continue;
+                        }
+                        Err(p) => {
+                            out.violate("from_npy", format!("C19 read_npy panic {}", panic_key(&p)), format!("shape {shape:?} fortran={fortran}: {p}"));
+                            continue;
+                        }
+                    };
+                    out.count(if *fortran { "from_npy.fortran_accepted" } else { "from_npy.c_order_accepted" }, 1);
+                    // whatever element order the reader chose: flat position and multi-index must be in
+                    // bijection, and a view must hold the elements whose a-th index is i
+                    let flat: Vec<f64> = arr.as_slice().to_vec();
+                    let mut bad = None;
+                    if arr.shape().to_vec() == *shape {
+                        for (pos, idx) in model.iter().enumerate() {
+                            match guarded(|| arr.get(idx).copied()) {
+                                Ok(Some(v)) if v.to_bits() == flat[pos].to_bits() => {}
+                                other => {
+                                    bad = Some(format!("index {idx:?} at row-major position {pos}: get = {other:?}, element at that position = {}", flat[pos]));
+                                    break;
+                                }
+                            }
+                        }
+                        if bad.is_none() {
+                            'outer: for axis in 0..dims {
+                                for pos in 0..shape[axis] {
+                                    let want: Vec<f64> = model_view(shape, axis, pos).into_iter().map(|f| flat[f]).collect();
+                                    let got = guarded(|| arr.get_axis(Axis(axis), pos).map(|v| v.iter().take(n + 1).copied().collect::<Vec<f64>>()));
+                                    if got != Ok(Some(want.clone())) {
+                                        bad = Some(format!("view (axis {axis}, position {pos}): expected {:?} got {:?}", &want[..want.len().min(8)], got));
+                                        break 'outer;
+                                    }
+                                }
+                            }
+                        }
+                    } else {
+                        bad = Some(format!("shape of the array {:?}", arr.shape().to_vec()));
+                    }
+                    if let Some(b) = bad {
+                        out.violate(
+                            "bijection",
+                            format!("C19 array from read_npy (fortran_order={fortran}): index, flat order and views disagree"),
+                            format!("shape {shape:?}: {b}"),
+                        );
                     }
                 }
                 Op::ToArray { axis, pos } => {
